@@ -6,7 +6,7 @@
            op   = U | D | O | C | T (timerFired, current generation) | X (timerFired, superseded generation)
                   | Y (exported Timeout()) | F (conc only: timerFired with the generation current before A)
                   | R (Restore) | K (Kill) | I<code>.<id>.<cls>.<dlen>[.<hex data>]
-                  id  = c (current lastReqID) | s (lastReqID+1) | p (lastReqID-1) | decimal
+                  id  = c (current lastReqID) | s (lastReqID+1) | p (lastReqID-1) | x<mask> (lastReqID xor mask) | decimal
                   cls = g | n | r | b | m     (handler's answer to a Configure-Request; m = data does not parse)
                   data = the hex bytes if given, else <dlen> bytes a0 a1 ...
    result: per op   <state>/<restartCount>/<armed>/<lastReqID>/<failCount>:<actions>:<handler call>
@@ -44,7 +44,10 @@ let show_act mock kindn log edata a =
   | Screj i -> Some (p "srj" i (t "0702"))
   | Str i -> Some (p "str" i "-")
   | Sta i -> Some (p "sta" i "-")
-  | Scj (i, rc, ri) -> Some (p "scj" i (Printf.sprintf "%d-%d-%d" (int_of_z rc) (int_of_z ri) (List.length edata)))
+  | Scj (i, rc, ri) ->
+    (* the Length field the peer sent is kept; the quoted copy is the whole packet or, RFC 1661 5.6, cut to the MRU *)
+    Some (p "scj" i (Printf.sprintf "%d-%d-%d-%d" (int_of_z rc) (int_of_z ri) (List.length edata)
+                       (min (4 + List.length edata) 1488)))
   | Ser i -> Some (p "ser" i (hex_of_zbytes edata))
   | Tlu -> Some "tlu" | Tld -> Some "tld" | Tls -> Some "tls" | Tlf -> Some "tlf"
 
@@ -317,6 +320,7 @@ let () =
                  let last = match last with Some l -> l | None -> int_of_z (!f).lastReq in
                  let idv = match id with
                    | "c" -> last | "s" -> (last + 1) land 255 | "p" -> (last + 255) land 255
+                   | s when String.length s > 1 && s.[0] = 'x' -> last lxor (int_of_string (String.sub s 1 (String.length s - 1)))
                    | s -> int_of_string s in
                  let data = match rest with
                    | [h] -> zbytes_of_hex h
